@@ -488,8 +488,8 @@ PITS_DEFS = r"""
 """
 
 PITS_PARAMS = ("size_t gsize, const size_t *m_outlets, const size_t *m_outlets_n, const _Bool *base_level, size_t *m_pits, size_t *m_pits_n, "
-               "const size_t *PCNT, const _Bool *QQ")
-PITS_ARGS = "gsize, m_outlets, m_outlets_n, base_level, m_pits, m_pits_n, PCNT, QQ"
+               "const size_t *PCNT, const _Bool *QQ, size_t base_levels_size")
+PITS_ARGS = "gsize, m_outlets, m_outlets_n, base_level, m_pits, m_pits_n, PCNT, QQ, nondet_size_t()"
 
 P_KEEP = "((GS < %s && !BASE(m_outlets[GS])) ==> (PCNT[GS] < *m_pits_n && m_pits[PCNT[GS]] == m_outlets[GS]))"
 P_EACH = "(GP < *m_pits_n ==> (m_pits[GP] < gsize && !BASE(m_pits[GP]) && QQ[m_pits[GP]]))"
@@ -502,7 +502,10 @@ pits = Unit(
     rules=[
         R(r"for \((?:const )?auto&? (\w+) : m_outlets\)\s*\{",
           r"for (size_t out_k = 0; out_k < *m_outlets_n; ++out_k)\n{ const size_t \1 = SW_OUTLET(out_k);", 1),
-        R(r"return m_pits;", "return; /* the caller reads (m_pits, m_pits_n) */", 1),
+        V(r"return m_pits;", "return; /* the caller reads (m_pits, m_pits_n) */"),
+        # size of the base-level set: a value the function may read (any value: masked base levels are not outlets, so it is
+        # unrelated to the number of outlets)
+        V(r"m_base_levels\.size\(\)", "base_levels_size"),
     ] + VEC_RULES + IMPL_VOCAB,
     contract=r"""
 __CPROVER_requires(0 < gsize && gsize <= %(NMAX)s)
@@ -546,7 +549,7 @@ void h_pits(void)
 %s}
 """ % (PITS_ARGS, CANARY)
     return [Group(
-        name="sweeps.pits", units=[is_base_level, pits], harness=h, entry="h_pits", enforce="pits",
+        name="sweeps.pits", units=[is_base_level, pits], harness=h, entry="h_pits", enforce="pits", replay="replay/routing.cpp",
         loop_contracts=True, backend="sat", timeout=600, min_obligations=600, object_bits=8,
         clause="pits(), any outlet list, any base-level set, arbitrary previous contents: the j-th outlet entry that is not a base level is pit "
                "number j (filter, order preserved), pits.size() = number of such entries, every pit is a non-base-level member of the outlet list")]
